@@ -41,6 +41,9 @@ const (
 	aType = resource.Type("A.verif.cosi.dev")
 	bNS   = resource.Namespace("ns-b")
 	bType = resource.Type("B.verif.cosi.dev")
+	// secondary inputs (configurations with Extra): the transform adds the value of the secondary of the same id
+	cNS   = resource.Namespace("ns-c")
+	cType = resource.Type("C.verif.cosi.dev")
 )
 
 type ASpec struct{ Val int }
@@ -75,6 +78,22 @@ func NewB(id resource.ID, v int) *B {
 	return typed.NewResource[BSpec, BE](resource.NewMetadata(bNS, bType, id, resource.VersionUndefined), BSpec{Val: v})
 }
 
+type CSpec struct{ Val int }
+
+func (c CSpec) DeepCopy() CSpec { return c }
+
+type CE struct{}
+
+func (CE) ResourceDefinition() meta.ResourceDefinitionSpec {
+	return meta.ResourceDefinitionSpec{Type: cType, DefaultNamespace: cNS}
+}
+
+type C = typed.Resource[CSpec, CE]
+
+func NewC(id resource.ID, v int) *C {
+	return typed.NewResource[CSpec, CE](resource.NewMetadata(cNS, cType, id, resource.VersionUndefined), CSpec{Val: v})
+}
+
 type Cmd struct {
 	C  string `json:"c"`
 	ID int    `json:"id"`
@@ -103,6 +122,7 @@ type Line struct {
 	Cleanup     bool   `json:"cleanup"`
 	Destroyer   bool   `json:"destroyer"`
 	Optional    bool   `json:"optional"`
+	Extra       bool   `json:"extra"`
 	Ctrl        string `json:"ctrl"`
 	Kind        string `json:"kind"`
 	ID          int    `json:"id"`
@@ -110,6 +130,7 @@ type Line struct {
 	V           Val    `json:"v"`
 	Ins         []Snap `json:"ins"`
 	Outs        []Snap `json:"outs"`
+	Exts        []Snap `json:"exts"`
 	T           int    `json:"t"`
 }
 
@@ -137,6 +158,8 @@ func valOf(r resource.Resource) Val {
 	case *A:
 		v.Val = t.TypedSpec().Val
 	case *B:
+		v.Val = t.TypedSpec().Val
+	case *C:
 		v.Val = t.TypedSpec().Val
 	}
 
@@ -217,6 +240,10 @@ func kindOf(typ resource.Type) string {
 		return "in"
 	}
 
+	if typ == cType {
+		return "ext"
+	}
+
 	return "out"
 }
 
@@ -291,6 +318,9 @@ type Config struct {
 	// Optional: MapMetadataOptionalFunc - an input whose value is 3 is not mapped (no output); the mapping of an input flips
 	// whenever its value changes to or from 3
 	Optional bool
+	// Extra: a secondary input kind (qtransform: WithExtraMappedInput with a mapper secondary rN -> input rN; transform:
+	// WithExtraInputs); the transform reads the secondary of the same id: output = 10 * input + secondary (0 when absent)
+	Extra bool
 }
 
 var Configs = []Config{
@@ -306,6 +336,8 @@ var Configs = []Config{
 	{Name: "T", Fin: true, Destroyer: true},
 	{Name: "Q", Q: true, Fin: true, Concurrency: 2, Destroyer: true},
 	{Name: "T", Fin: true, Optional: true},
+	{Name: "Q", Q: true, Fin: true, Concurrency: 2, Extra: true},
+	{Name: "T", Fin: true, Extra: true},
 }
 
 type gateT struct {
@@ -391,10 +423,14 @@ func runBehaviour(t *testing.T, tr *vh.Trace, tid string, cfg Config, beh []Cmd)
 				l.Outs = []Snap{}
 			}
 
+			if l.Exts == nil {
+				l.Exts = []Snap{}
+			}
+
 			tr.Emit(l)
 		}
 
-		emit(Line{Ev: "reset", Fin: cfg.Fin, IgnoreTd: cfg.IgnoreTd, IgnoreUntil: cfg.IgnoreUntil, Cleanup: cfg.Cleanup, Ctrl: cfg.Name, Destroyer: cfg.Destroyer, Optional: cfg.Optional})
+		emit(Line{Ev: "reset", Fin: cfg.Fin, IgnoreTd: cfg.IgnoreTd, IgnoreUntil: cfg.IgnoreUntil, Cleanup: cfg.Cleanup, Ctrl: cfg.Name, Destroyer: cfg.Destroyer, Optional: cfg.Optional, Extra: cfg.Extra})
 
 		rec := &recorder{CoreState: namespaced.NewState(inmem.Build), emit: emit, last: map[string]Val{}}
 		st := state.WrapCore(rec)
@@ -405,7 +441,7 @@ func runBehaviour(t *testing.T, tr *vh.Trace, tid string, cfg Config, beh []Cmd)
 			t.Fatal(err)
 		}
 
-		transformF := func(ctx context.Context, _ controller.Reader, _ *zap.Logger, in *A, out *B) error {
+		transformF := func(ctx context.Context, r controller.Reader, _ *zap.Logger, in *A, out *B) error {
 			if perr := g.pass(ctx); perr != nil {
 				if errors.Is(perr, errSkip) {
 					if cfg.Q {
@@ -419,6 +455,17 @@ func runBehaviour(t *testing.T, tr *vh.Trace, tid string, cfg Config, beh []Cmd)
 			}
 
 			out.TypedSpec().Val = 10 * in.TypedSpec().Val
+
+			if cfg.Extra {
+				sec, serr := r.Get(ctx, NewC(in.Metadata().ID(), 0).Metadata())
+				if serr != nil && !state.IsNotFoundError(serr) {
+					return serr
+				}
+
+				if serr == nil {
+					out.TypedSpec().Val += sec.(*C).TypedSpec().Val //nolint:forcetypeassert
+				}
+			}
 
 			return nil
 		}
@@ -451,6 +498,13 @@ func runBehaviour(t *testing.T, tr *vh.Trace, tid string, cfg Config, beh []Cmd)
 				opts = append(opts, qtransform.WithIgnoreTeardownUntil())
 			}
 
+			if cfg.Extra {
+				opts = append(opts, qtransform.WithExtraMappedInput[*C](
+					func(_ context.Context, _ *zap.Logger, _ controller.QRuntime, ptr controller.ReducedResourceMetadata) ([]resource.Pointer, error) {
+						return []resource.Pointer{NewA(ptr.ID(), 0).Metadata()}, nil
+					}))
+			}
+
 			err = rtm.RegisterQController(qtransform.NewQController(qtransform.Settings[*A, *B]{
 				Name:              cfg.Name,
 				MapMetadataFunc:   func(in *A) *B { return NewB(in.Metadata().ID(), 0) },
@@ -465,6 +519,10 @@ func runBehaviour(t *testing.T, tr *vh.Trace, tid string, cfg Config, beh []Cmd)
 
 			if cfg.IgnoreTd {
 				opts = append(opts, transform.WithIgnoreTearingDownInputs())
+			}
+
+			if cfg.Extra {
+				opts = append(opts, transform.WithExtraInputs(controller.Input{Namespace: cNS, Type: cType, Kind: controller.InputWeak}))
 			}
 
 			settings := transform.Settings[*A, *B]{
@@ -520,6 +578,21 @@ func runBehaviour(t *testing.T, tr *vh.Trace, tid string, cfg Config, beh []Cmd)
 						a.TypedSpec().Val = c.V
 						st.Update(ctx, a, state.WithExpectedPhaseAny()) //nolint:errcheck
 					}
+				}
+			case "setC":
+				if cfg.Extra {
+					if cur, gerr := st.Get(ctx, NewC(rid(c.ID), 0).Metadata()); gerr == nil {
+						if sec, ok := cur.(*C); ok && sec.TypedSpec().Val != c.V {
+							sec.TypedSpec().Val = c.V
+							st.Update(ctx, sec) //nolint:errcheck
+						}
+					} else {
+						st.Create(ctx, NewC(rid(c.ID), c.V)) //nolint:errcheck
+					}
+				}
+			case "delC":
+				if cfg.Extra {
+					st.Destroy(ctx, NewC(rid(c.ID), 0).Metadata()) //nolint:errcheck
 				}
 			case "td":
 				st.Teardown(ctx, aPtr(c.ID)) //nolint:errcheck
@@ -620,7 +693,7 @@ func runBehaviour(t *testing.T, tr *vh.Trace, tid string, cfg Config, beh []Cmd)
 			return out
 		}
 
-		emit(Line{Ev: "quiet", Ins: snap(aNS, aType), Outs: snap(bNS, bType)})
+		emit(Line{Ev: "quiet", Ins: snap(aNS, aType), Outs: snap(bNS, bType), Exts: snap(cNS, cType)})
 
 		cancel()
 		<-runDone
